@@ -992,6 +992,24 @@ def _first_nonspace_loop(fnode, name):
                and any(isinstance(t, ast.Name) and t.id == name for t in a.targets)]
     others = [a for a in ast.walk(fnode) if isinstance(a, (ast.AugAssign, ast.For, ast.NamedExpr))
               and any(isinstance(m, ast.Name) and m.id == name for m in ast.walk(a.target))]
+    # for-else form: `for name, c in enumerate(T): if not c.isspace(): break` / `else: name = 0`
+    if len(others) == 1 and isinstance(others[0], ast.For) and len(assigns) == 1:
+        lp, a = others[0], assigns[0]
+        tgt = lp.target
+        ivar = tgt.elts[0] if isinstance(tgt, ast.Tuple) and len(tgt.elts) == 2 else tgt
+        is_enum = isinstance(lp.iter, ast.Call) and getattr(lp.iter.func, 'id', '') == 'enumerate' \
+            and len(lp.iter.args) == 1 and not lp.iter.keywords and isinstance(tgt, ast.Tuple)
+        is_rng = isinstance(lp.iter, ast.Call) and getattr(lp.iter.func, 'id', '') == 'range' and len(lp.iter.args) == 1 \
+            and isinstance(tgt, ast.Name)
+        if isinstance(ivar, ast.Name) and ivar.id == name and (is_enum or is_rng) and a in lp.orelse \
+                and isinstance(a.value, ast.Constant) and a.value.value == 0 and len(lp.body) == 1 \
+                and isinstance(lp.body[0], ast.If) and not lp.body[0].orelse and len(lp.body[0].body) == 1 \
+                and isinstance(lp.body[0].body[0], ast.Break):
+            fs = []
+            guards.split_fact(lp.body[0].test, True, fs)
+            return len(fs) == 1 and not fs[0][1] and isinstance(fs[0][0], ast.Call) \
+                and isinstance(fs[0][0].func, ast.Attribute) and fs[0][0].func.attr == 'isspace'
+        return False
     if others or len(assigns) != 2:
         return False
     dflt = [a for a in assigns if isinstance(a.value, ast.Constant) and a.value.value == 0]
